@@ -532,14 +532,15 @@ var c06Families = []c06Family{
 		ctx.Cell("entry:Tofu.Render")
 		return fw.Result{Verdict: fw.Held}
 	}},
-	{"api-misuse", func(tier string) int { return 200 }, func(ctx *fw.Ctx, k int) fw.Result {
-		tofu, err := compile([]srcFile{{"m.soy", "{namespace m}\n/** @param? x */\n{template .t}{$x ?: 'd'}{/template}\n"}}, nil)
+	{"api-misuse", func(tier string) int { return 13 * 18 }, func(ctx *fw.Ctx, k int) fw.Result {
+		tofu, err := compile([]srcFile{{"m.soy", "{namespace m}\n/** @param? x */\n{template .t}{$x ?: 'd'}{/template}\n/** */\n{template .b}b{/template}\n/** */\n{template .k}{call .b/}{/template}\n"}}, nil)
 		if err != nil {
 			return fw.Result{Verdict: fw.Skip}
 		}
 		var buf bytes.Buffer
 		objs := []interface{}{nil, "string", 42, []int{1}, map[string]interface{}{"x": 1}, struct{ X int }{1}, &struct{ X []interface{} }{}, map[string]int{"x": 2}, 1.5, true, data.Map{"x": data.Undefined{}}, data.List{}, data.Null{}}
-		names := []string{"m.t", "m.nosuch", "", ".t", "m"}
+		// entry names: defined ones, and unknown ones that sort before, between and after every defined name
+		names := []string{"m.t", "m.nosuch", "", ".t", "m", "m.b", "m.k", "m.a", "m.c", "m.s", "m.tt", "m.zzz", "zzz.last", "a.first", "m.t\x00", "\u00e9.\u00fc", "\xff", "m.t "}
 		obj := objs[k%len(objs)]
 		name := names[(k/len(objs))%len(names)]
 		armRenderBudget()
